@@ -185,6 +185,15 @@ def handle_failed(P, rep, r, ob, known, build):
            "file": r["file"], "verifier_output": ob.get("output"), "goal": ob.get("goal"),
            "model": ob.get("model"), "replayed": False}
     suffix = "no-failing-input-found"
+    wr = ob.get("replay") or {}
+    doc["replay_result"] = {k_: v for k_, v in wr.items() if k_ != "input"}
+    if wr.get("failed_on_real_code"):
+        # the worker replayed a model on an ASan build of the real function and a contract clause (or the
+        # sanitizer, inside the function) failed there
+        doc["replayed"] = True
+        doc["input"] = wr.get("input")
+        doc["how_to_replay"] = "./bin/check %s --replay <this file> regenerates the obligation on the current tree and re-runs the stored input through the C harness" % pid
+        suffix = ""
     rp = getattr(P, "REPLAY", {}).get(r["function"]) if getattr(P, "REPLAY", None) else None
     if rp is not None and build is not None:
         from . import rt
